@@ -152,6 +152,8 @@ func VerifC02Heal() {
 	for _, e := range b.acks {
 		vstub.Assert(inLog(a.b, e), "C02 after the heal a holds every acknowledged write of b")
 	}
+	vstub.Assert(len(a.b.Index().Get("").([]ipfslog.Entry)) == a.b.OpLog().Len(), "C02 after the heal the view of a shows what its log holds")
+	vstub.Assert(len(b.b.Index().Get("").([]ipfslog.Entry)) == b.b.OpLog().Len(), "C02 after the heal the view of b shows what its log holds")
 	ha, hb := hashesOf(a.b), hashesOf(b.b)
 	vstub.Assert(vstubodb.SameStrings(ha, hb), "C02 after the heal both replicas show the same state")
 }
